@@ -28,11 +28,12 @@ def _n(x):
 def klatt_text(spec, trail=" ", final_newline=True):
     """spec: dict(xmax, nform, points: {tier-key: [(t, v), ...]}) -> KlattGrid text in Praat's long layout."""
     xmax = spec["xmax"]
+    xmin = spec.get("xmin", 0)
     pts = spec["points"]
     L = ['File type = "ooTextFile"', 'Object class = "KlattGrid"', ""]
 
     def span(ind=""):
-        L.append(f"{ind}xmin = 0{trail}")
+        L.append(f"{ind}xmin = {_n(xmin)}{trail}")
         L.append(f"{ind}xmax = {_n(xmax)}{trail}")
 
     def points(key, ind=""):
@@ -183,7 +184,8 @@ def _source(case_src):
     """-> path of the KlattGrid file to start from (reference fixture or a synthetic one written here)"""
     if case_src[0] == "ref":
         return os.path.join(SRC, "tests", "files", "bobby.KlattGrid"), None
-    _, nform, npts, vi, trail, fin = case_src
+    _, nform, npts, vi, trail, fin = case_src[:6]
+    xmin = case_src[6] if len(case_src) > 6 else 0  # a time domain that does not start at 0 (an extracted part with its times preserved)
     pts = {}
     vals = VALS[vi:] + VALS[:vi]
     k = 0
@@ -204,7 +206,7 @@ def _source(case_src):
         pts[("nasal_antiformants", "oral_formants_amplitudes", f"oral_formants_amplitudes [{i}]")] = mk()
     pts[("frication_formants", "frication_formants_amplitudes", "frication_formants_amplitudes [2]")] = mk()
     pts[("delta_formants", "bandwidths", "bandwidths [1]")] = mk()
-    spec = {"xmax": xmax, "nform": nform, "points": pts}
+    spec = {"xmax": xmax, "xmin": xmin, "nform": nform, "points": pts}
     fn = os.path.join(scratch_dir(), "c19-src.KlattGrid")
     with open(fn, "w", encoding="utf-8") as fd:
         fd.write(klatt_text(spec, trail, fin))
@@ -230,7 +232,7 @@ def _check_klatt(case):
             if E != exp:
                 viols.append(Viol("open-content", f"{tag}: tier {k}: read {E}, file encodes {exp}"))
                 break
-            if (lo, hi) != (0.0, spec["xmax"]):
+            if (lo, hi) != (float(spec["xmin"]), spec["xmax"]):
                 viols.append(Viol("open-span", f"{tag}: tier {k}: span ({lo},{hi})"))
                 break
         missing = [k for k in want if k not in [x[0] for x in d0]]
@@ -378,6 +380,13 @@ def parts(tier):
                     for trail in (" ", ""):
                         for fin in (True, False):
                             yield (("syn", nform, npts, vi, trail, fin), ())
+        # time domains that do not start at 0
+        for xmin in (0.0125, 0.35, -0.5, -2, 0.30000000000000004):
+            for nform in (1, 2):
+                for npts in (0, 2):
+                    yield (("syn", nform, npts, 0, " ", True, xmin), ())
+            yield (("syn", 2, 2, 3, "", True, xmin), ((("oral_formants", "formants"), FUNCS[0]),))
+            yield (("syn", 2, 2, 3, "", True, xmin), ((("pitch",), FUNCS[1]), (("oral_formants", "bandwidths", "bandwidths [1]"), FUNCS[3])))
         # every addressed tier x every function on a synthetic grid
         src = ("syn", 2, 2, 0, " ", True)
         addrs = [("pitch",), ("voicingAmplitude",), ("gain",), ("flutter",), ("oral_formants", "formants"), ("oral_formants", "bandwidths"),
@@ -416,7 +425,7 @@ def parts(tier):
     return [
         InputPart("klattgrid", gen_klatt, _check_klatt,
                   rule="synthetic KlattGrids (independent Praat-layout writer; 1-3 formants x 0-3 points per tier x value rotations x trailing "
-                       "blanks x final newline) and the reference KlattGrid: open, compare with what the file encodes, apply 0-2 "
+                       "blanks x final newline; time domains starting at 0 and at 5 other values) and the reference KlattGrid: open, compare with what the file encodes, apply 0-2 "
                        "modifications (every addressed tier x 9 functions; all pairs on distinct tiers), save, reopen, compare every span, "
                        "time and value digit for digit, call counts, untouched tiers; non-trivial = distinct (source, modification list)",
                   bounds={"functions": len(FUNCS)}, chunk=4),
